@@ -115,15 +115,22 @@ func VfC07_GEP() {
 		g.anyVec = true
 	}
 	// index list shape
-	shape := vfChoice("shape", 7)
-	f0 := vfChoice("i0.form", hIdxForms)
-	i0, c0 := g.index("i0", f0)
-	idx := []value.Value{i0}
-	allConst := c0
+	shape := vfChoice("shape", 8)
+	f0 := 0
+	var idx []value.Value
+	allConst := true
+	if shape != 7 {
+		f0 = vfChoice("i0.form", hIdxForms)
+		i0, c0 := g.index("i0", f0)
+		idx = []value.Value{i0}
+		allConst = c0
+	}
 	var reached types.Type = T
 	field := func(k int64) value.Value { return constant.NewInt(types.I32, k) }
 	switch shape {
 	case 0:
+	case 7:
+		// no index at all (`getelementptr T, T* %p`, valid LLVM): the base type
 	case 1:
 		idx = append(idx, field(0))
 		reached = a
